@@ -439,8 +439,8 @@ func legitBig(b []byte) bool {
 
 // C10: no input can crash or exhaust the process; bad files yield errors.
 func C10(r *chk.Run) {
-	r.Rule("bounded-exhaustive structured mutation of valid seed files in isolated workers (ulimit -v 8 GiB, 64 MiB stack, 30 s per call, per-call allocation accounting): POSITION-EXHAUSTIVE depth 1 - for every byte offset of every seed and every width in {1,2,4,8} the bytes are overwritten with each hostile value of that width {0,1,...,2^15,2^16-1,2^31,2^32-1,2^40,2^63-1,2^63,2^64-9,2^64-1} and with v-1, v+1 (every length/offset/size/count/time/id/opcode field starts at some offset); STRUCTURAL - every record duplicated / removed / swapped with its neighbour, values just below 2^31 on one length field per record kind, compression names of every length 0..40; every mutant goes through 12 decode entry points (lexer under 6 option sets incl. every Parse*, Info+ChannelCounts, 4 iterator modes, random access); outcome must be ok or error - never panic, process death, stall or allocation beyond the ceilings; distinct = entry-point calls")
-	r.Assume("seeds are written without CRCs so that no path is masked by a checksum failure; truncations are C09's, multi-fault (depth 2) mutations are thorough-only")
+	r.Rule("bounded-exhaustive structured mutation of valid seed files in isolated workers (ulimit -v 8 GiB, 64 MiB stack, 30 s per call, per-call allocation accounting): POSITION-EXHAUSTIVE depth 1 - for every byte offset of every seed and every width in {1,2,4,8} the bytes are overwritten with each hostile value of that width {0,1,...,2^15,2^16-1,2^31,2^32-1,2^40,2^63-1,2^63,2^64-9,2^64-1} and with v-1, v+1 (every length/offset/size/count/time/id/opcode field starts at some offset); STRUCTURAL - every record duplicated / removed / swapped with its neighbour, values just below 2^31 on one length field per record kind, compression names of every length 0..40; NESTED - every top-level record (the chunk itself included) copied to the front/middle/end of every chunk's records with sizes fixed up and recompressed, chunk records replaced by the whole file / by nothing; SPLICED - for every ordered pair of records a chimera body (half of one, half of the other) and the byte stream cut from the middle of one into the middle of the other; thorough: DEPTH 2 - every pair of length/size/offset/count fields x reduced hostile values {0, 2^31, 2^63, max, v-1, v+1}; every mutant goes through 12 decode entry points (lexer under 6 option sets incl. every Parse*, Info+ChannelCounts, 4 iterator modes, random access); outcome must be ok or error - never panic, process death, stall or allocation beyond the ceilings; distinct = entry-point calls")
+	r.Assume("seeds are written without CRCs so that no path is masked by a checksum failure; truncations are C09's; depth-2 mutations are restricted to pairs of the specification's size/offset/count fields and are thorough-only")
 	seeds := c10Seeds(r.Thorough())
 	thorough := r.Thorough()
 	type fam struct {
@@ -453,6 +453,15 @@ func C10(r *chk.Run) {
 		sf := structFamily{s}
 		ms := append(sf.mutants(), sf.compressionNames()...)
 		fams = append(fams, fam{"structural/" + s.name, len(ms), func(i int) ([]byte, string) { return ms[i]() }})
+		ns := sf.nested()
+		fams = append(fams, fam{"nested/" + s.name, len(ns), func(i int) ([]byte, string) { return ns[i]() }})
+	}
+	for si, s := range seeds {
+		if !thorough && si > 0 {
+			break
+		}
+		sp := structFamily{s}.spliced()
+		fams = append(fams, fam{"spliced/" + s.name, len(sp), func(i int) ([]byte, string) { return sp[i]() }})
 	}
 	{
 		kinds := map[byte]bool{ref.OpHeader: true, ref.OpMetadata: true, ref.OpStatistics: true}
@@ -468,6 +477,11 @@ func C10(r *chk.Run) {
 		}
 		pf := posFamily{s}
 		fams = append(fams, fam{"positional/" + s.name, pf.count(), pf.mutant})
+	}
+	if thorough {
+		// depth 2: every pair of size/offset/count fields of the uncompressed seed (last: it is the largest family)
+		pf := newPairFamily(seeds[0])
+		fams = append(fams, fam{"field-pairs/" + seeds[0].name, pf.count(), pf.mutant})
 	}
 	if one := os.Getenv("VERIF_C10_ONE"); one != "" && !iso.IsWorker() {
 		// debugging aid: VERIF_C10_ONE=<family>:<index> runs one mutant in-process with timings
@@ -502,7 +516,7 @@ func C10(r *chk.Run) {
 			if b == nil {
 				return nil
 			}
-			if !thorough && strings.HasPrefix(f.name, "positional") && legitBig(b) {
+			if !thorough && !strings.HasPrefix(f.name, "near-2GiB") && legitBig(b) {
 				return []iso.Outcome{{Class: "deferred-legit-2GiB-allocation"}}
 			}
 			e := i % c10Entries
